@@ -26,7 +26,9 @@ RULE = ("DataFrame / GeoJSON: 0..5 columns x 0..8 rows over float (nan, ±inf, -
 
 NAMES = ["a", "b", "name", "値", "名前", "x1", "long_column_name", "é"]
 STRS = ["", "a", "ab", "hello world", "ä", "中文", "日本語テキスト", "é", "\U0001F600", "a​b", "x\ny", "a\n", "\n", "word " * 12,
-        "q\"r", "   ", "　", "a\r\nb", "tail "]
+        "q\"r", "   ", "　", "a\r\nb", "tail ",
+        # sequences whose display width is NOT the sum of their code points' widths (emoji + variation selector, ZWJ family)
+        "\u2764\ufe0f ok", "\U0001F468\u200d\U0001F469\u200d\U0001F467 fam"]
 CTRL = ["tab\there", "\x1b[31mred", "bell\x07", "nul-ish\x01"]
 FLOATS = ["nan", "inf", "-inf", 0.0, "-0.0", 1e-10, 1e17, 123456.789, 1 / 3, 1e300, 5e-324, 1.0, -2.5, 1234567.0, 0.000001, 9999999999999998.0]
 INTS = [0, -1, 7, 1234567, 2 ** 62, -(2 ** 63)]
@@ -335,6 +337,10 @@ def impl_(case):
 
 def model_requests(case, obs):
     if "out" not in obs or "cells_err" in obs:
+        return []
+    if any(ch in json.dumps(case, ensure_ascii=False) for ch in ("\ufe0f", "\u200d")):
+        # a sequence whose display width is not the sum of its code points' widths (variation selector, zero-width joiner):
+        # the layout model measures per code point, so such cases are judged by the oracle alone (which measures with wcswidth)
         return []
     op = case["op"]
     if op == "frame":
